@@ -864,7 +864,7 @@ func runArgsE2E(c *lib.Ctx, plz string, pairs []argPair) ([]map[string]*e2eResul
 		name := p.Full.Name
 		cnt := filepath.Join(state, name)
 		// test arguments are appended to the command: they become the arguments of run
-		cmd := fmt.Sprintf(`run() { n=$(cat %s 2>/dev/null || echo 0); n=$((n+1)); echo $n > %s; v=f; if [ -n "$1" ]; then v=s; fi; `, cnt, cnt) +
+		cmd := fmt.Sprintf(`run() { n=$(cat %s 2>/dev/null || echo 0); n=$((n+1)); echo $n > %s; v=f; if [ -n "${1:-}" ]; then v=s; fi; `, cnt, cnt) +
 			fmt.Sprintf(`cp a/%s_${v}_${n}.res $RESULTS_FILE; exit $(cat a/%s_${v}_${n}.exit); }; run`, name, name)
 		fmt.Fprintf(&b, "gentest(\n    name = %q,\n    test_cmd = %q,\n    data = glob([%q]),\n    flaky = %d,\n)\n", name, cmd, name+"_*", p.Full.Flaky)
 	}
